@@ -58,7 +58,10 @@ def grid_case(draw):
         ul2["type"], ul2["params"] = "BrownianStock", {}
     return {"ul": ul, "ul2": ul2, "maturity": maturity, "ratio_kind": label, "k": k, "deriv": deriv,
             "call": draw(st.booleans()), "strike": draw(st.sampled_from([1.0, 0.9, 1.1])),
-            "n_paths": draw(st.integers(1, 4)), "sim_seed": draw(seed_s)}
+            "n_paths": draw(st.integers(1, 4)), "sim_seed": draw(seed_s),
+            # simulate(n_paths, init_state): the documented second argument, here the instrument's own default state given explicitly
+            "explicit_init": draw(st.booleans()),
+            "start_k": draw(st.integers(0, max(k, 0)))}
 
 
 def expected_T(maturity: float, dt: float):
@@ -118,12 +121,29 @@ def check_grid(case, ctx):
     elif case["deriv"] in OPTIONS:
         deriv = getattr(I, case["deriv"])(ul, call=case["call"], strike=case["strike"], maturity=M)
     elif case["deriv"] == "EuropeanForwardStartOption":
-        deriv = I.EuropeanForwardStartOption(ul, strike=case["strike"], maturity=M, start=0.0)
+        deriv = I.EuropeanForwardStartOption(ul, strike=case["strike"], maturity=M, start=case.get("start_k", 0) * ul.dt)
     else:
         deriv = I.VarianceSwap(ul, maturity=M)
+    sigma_times = []
+    if case["ul"]["type"] == "LocalVolatilityStock":
+        inner = ul.sigma_fn
+
+        def recording_sigma_fn(time, spot):
+            sigma_times.append(float(time))
+            return inner(time, spot)
+        ul.sigma_fn = recording_sigma_fn
     torch.manual_seed(case["sim_seed"])
     with ctx.sut("C13/simulate"):
-        deriv.simulate(n_paths=case["n_paths"])
+        if case.get("explicit_init") and case["deriv"] != "Spread":
+            deriv.simulate(n_paths=case["n_paths"], init_state=tuple(ul.default_init_state))
+        else:
+            deriv.simulate(n_paths=case["n_paths"])
+    ctx.cls("init_state-given:" + str(bool(case.get("explicit_init") and case["deriv"] != "Spread")))
+    if sigma_times:
+        # the local volatility function is asked at the grid times i*dt
+        want_t = [i * ul.dt for i in range(len(sigma_times))]
+        ctx.check(all(abs(a - b) <= 1e-6 * max(b, ul.dt) for a, b in zip(sigma_times, want_t)), "C13/local-vol-grid",
+                  f"sigma_fn was evaluated at times {sigma_times[:4]}, the grid is {want_t[:4]} (dt={ul.dt!r})")
     borderline = False
     for j, u in enumerate(uls):
         exact, ok, r = expected_T(M, u.dt)
@@ -181,6 +201,15 @@ def check_grid(case, ctx):
                 ctx.check(float((out2[:, 0] - w0).abs().max()) <= tol and bool(((out2[:, 1] - w1).abs() <= 8 * eps * w1.abs()).all()),
                           "C13/hedge-grid", "with two hedging instruments, hedge[:, h, t] is not the model output for instrument h at grid point t",
                           got=out2[0, :, :3], want=torch.stack([w0[0, :3], w1[0, :3]]))
+    if case["deriv"] == "EuropeanForwardStartOption" and Tn >= 1:
+        # the start date k*dt is the grid point k: the payoff is taken on this same grid
+        kk = case.get("start_k", 0)
+        if kk < Tn and bool((ul.spot[:, kk] > 0).all()):
+            want = torch.relu(ul.spot[:, -1] / ul.spot[:, kk] - case["strike"])
+            with ctx.sut("C13/payoff"):
+                got = deriv.payoff()
+            ctx.check(bool(((got - want).abs() <= 8 * EPS[dtn] * (want.abs() + case["strike"] + 1)).all()), "C13/payoff-grid",
+                      f"forward-start payoff does not use grid point {kk} for the start time {kk}*dt")
     if case["deriv"] == "EuropeanOption":
         S = ul.spot[:, -1]
         want = torch.relu(S - case["strike"]) if case["call"] else torch.relu(case["strike"] - S)
